@@ -502,6 +502,8 @@ class Executor:
                     r = self.op_lex(op)
                 elif kind == "cli":
                     r = self.op_cli(op)
+                elif kind == "fmt":
+                    r = self.op_fmt(op)
                 else:
                     raise ValueError(kind)
                 if pre is not None:
@@ -700,6 +702,40 @@ class Executor:
         res["nlines"] = nlines(self.store.data(fid))
         self.ev("api", name, res["outcome"], sha(repr(res.get("diags"))), sha(res["stdout"]),
                 CLOCK.ticks, len(MON.pops))
+        return res
+
+    # ---- op: formatters over given diagnostic lists (emission-order seam S9) ----------------------------
+    def op_fmt(self, op):
+        """op["files"]: [{"name":…, "errors":[{"name","level","text"?, "highlights":[[l,c,len,hint]…]}…]}];
+        op["perms"]: emission orders to try. Returns, per permutation, both formatter outputs."""
+        ns = N
+        E = ns.errors
+        res = {"op": "fmt", "outs": []}
+        perms = op.get("perms") or [None]
+        for spec in perms:
+            files = []
+            try:
+                for fd in op["files"]:
+                    f = ns.File(fd["name"], "")
+                    errs = []
+                    for e in fd["errors"]:
+                        hl = [E.Highlight(*h) for h in e["highlights"]]
+                        if e.get("text") is not None:
+                            errs.append(E.Error(e["name"], e["text"], level=e.get("level", "Error"), highlights=hl))
+                        else:
+                            errs.append(E.Error.from_name(e["name"], level=e.get("level", "Error"), highlights=hl))
+                    idx = apply_perm(spec, list(range(len(errs))))
+                    for j in idx:
+                        f.errors.add(errs[j])
+                    files.append(f)
+                human = str(E.HumanizedErrorsFormatter(files, use_colors=False))
+                js = str(E.JSONErrorsFormatter(files))
+                order = [[(e.name, [(h.lineno, h.column) for h in e.highlights]) for e in f.errors] for f in files]
+                res["outs"].append({"perm": spec if not isinstance(spec, list) else "list", "human": human, "json": js, "order": order})
+            except BaseException as e:  # noqa
+                res["outs"].append({"perm": spec if not isinstance(spec, list) else "list", "exc": type(e).__name__, "excmsg": str(e)[:200],
+                                    "site": site_of_tb(e.__traceback__)})
+        self.ev("fmt", sha(repr([(o.get("human"), o.get("json"), o.get("exc")) for o in res["outs"]])))
         return res
 
     # ---- wall backstop -------------------------------------------------------------------------
